@@ -1223,7 +1223,7 @@ class _StopLostCase:
     PROT = 'MASTEDLVKAADEGLVSTK'
     UTR3P = 'GHLRAADLSGNEFR'
 
-    def __init__(self, utr_records=True):
+    def __init__(self, utr_records=True, variants=None):
         import sys
         from moPepGen import dna, svgraph
         from mpgverif.harness.annobuild import anno_one_gene
@@ -1238,6 +1238,10 @@ class _StopLostCase:
         snv = ce + 3 + 3 * self.UTR3P.index('D') + 2
         self.vars = [(d, self.tx[d:d + 4], self.tx[d]), (snv, 'C', 'G')]
         assert self.tx[d:d + 4] == 'AATA' and self.tx[snv] == 'C', (self.tx[d:d + 4], self.tx[snv])
+        if variants is not None:
+            self.vars = [(ce + o, r, a) for o, r, a in variants]      # offsets relative to the stop codon
+            for p_, r_, a_ in self.vars:
+                assert self.tx[p_:p_ + len(r_)] == r_, (p_, r_, self.tx[p_:p_ + len(r_)])
         # GENCODE convention: the 3'UTR record starts at the stop codon, so the known ORF ends where the stop codon starts
         # utr_records False: an annotation with exon and CDS rows only
         anno = anno_one_gene(0, len(self.tx), 1, [(0, len(self.tx))], cds=[(cs, ce)],
